@@ -265,6 +265,160 @@ func c08Parent(c *Check, bound int) {
 	if c.replayKey == "" || strings.HasPrefix(c.replayKey, "data-race:") {
 		freeRacePass(c)
 	}
+	c08Relocation(c)
+}
+
+// c08Relocation: the same project under the same options at absolute locations of different depth and length must give
+// the same relative output paths, bytes, hashes, metafile (root replaced), mangle cache and diagnostics. Every graph x
+// option variants that put content hashes into every kind of name (the deciding step is exhaustive over this small
+// product; scheduling is the business of the exploration above).
+func c08Relocation(c *Check) {
+	base := scratchRoot("c08loc")
+	defer os.RemoveAll(base)
+	locs := []string{filepath.Join(base, "a"), filepath.Join(base, "some", "much", "deeper", "location with a rather long name-é"), filepath.Join(base, "zzzzzzzzzzzzzzzz", "src")}
+	variants := []struct {
+		name string
+		mod  func(o *api.BuildOptions)
+	}{
+		{"as-is", func(o *api.BuildOptions) {}},
+		{"hashed-names", func(o *api.BuildOptions) {
+			o.EntryNames, o.AssetNames = "[dir]/[name]-[hash]", "assets/[name]-[hash]"
+			if o.Splitting {
+				o.ChunkNames = "chunks/[name]-[hash]"
+			}
+		}},
+		{"hashed-names-copy-loader-minify", func(o *api.BuildOptions) {
+			o.EntryNames, o.AssetNames = "[name]-[hash]", "[name]-[hash]"
+			o.MinifyWhitespace, o.MinifySyntax = true, true
+			if o.Loader != nil {
+				for k, v := range o.Loader {
+					if v == api.LoaderFile {
+						o.Loader[k] = api.LoaderCopy
+					}
+				}
+			}
+		}},
+		{"sourcemap-external-public-path", func(o *api.BuildOptions) {
+			o.Sourcemap, o.PublicPath = api.SourceMapExternal, "https://cdn.example.com/x/"
+		}},
+		{"outbase-legal-linked", func(o *api.BuildOptions) {
+			o.Outbase, o.LegalComments = ".", api.LegalCommentsLinked
+		}},
+	}
+	for _, g := range c08Graphs {
+		for _, v := range variants {
+			var first string
+			var firstDiag string
+			var firstParts map[string]string
+			for li, root := range locs {
+				writeTree(root, g.files)
+				opts := g.opts(root)
+				if opts.Loader != nil {
+					cp := map[string]api.Loader{}
+					for k, val := range opts.Loader {
+						cp[k] = val
+					}
+					opts.Loader = cp
+				}
+				v.mod(&opts)
+				opts.AbsWorkingDir = root
+				opts.Write = false
+				opts.LogLevel = api.LogLevelSilent
+				r := api.Build(opts)
+				c.Eval(1)
+				// strict observation: nothing of the result may mention the location (JSON text escapes non-ASCII characters)
+				esc := []byte("\"" + asciiJSON(root) + "\"")
+				strict := !strings.Contains(r.Metafile, root) && !strings.Contains(r.Metafile, strings.Trim(string(esc), "\""))
+				for _, f := range r.OutputFiles {
+					if strings.Contains(string(f.Contents), root) {
+						strict = false
+					}
+				}
+				r.Metafile = strings.ReplaceAll(r.Metafile, strings.Trim(string(esc), "\""), "<root>")
+				obs := c08Observe(root, r)
+				diag := c08Diag(r)
+				parts := map[string]string{"metafile": strings.ReplaceAll(r.Metafile, root, "<root>")}
+				for _, f := range r.OutputFiles {
+					rel, _ := filepath.Rel(root, f.Path)
+					parts["file:"+rel] = string(f.Contents)
+				}
+				if li == 0 {
+					firstParts = parts
+				}
+				if !strict {
+					key := "location-in-result:" + g.name + ":" + v.name
+					if len(opts.Inject) > 0 && !strings.Contains(strings.ReplaceAll(r.Metafile, "<root>/inj", ""), "<root>") {
+						// recorded finding: only the injected files are named by absolute path
+						key = "metafile-lists-injected-files-as-external-imports-with-absolute-paths"
+					}
+					c.Violation(key, map[string]interface{}{"kind": "the build result contains the absolute location of the project", "graph": g.name, "variant": v.name, "location": root})
+				}
+				if li == 0 {
+					first, firstDiag = obs, diag
+				} else if obs != first {
+					var names []string
+					for _, f := range r.OutputFiles {
+						rel, _ := filepath.Rel(root, f.Path)
+						names = append(names, rel)
+					}
+					sort.Strings(names)
+					c.Violation("location-dependent:"+g.name+":"+v.name, map[string]interface{}{"kind": "build result depends on the absolute location of the project", "graph": g.name, "variant": v.name,
+						"location_a": locs[0], "location_b": root, "outputs_at_b": names, "diagnostics_a": firstDiag, "diagnostics_b": diag, "first_difference": c08FirstDiff(firstParts, parts)})
+				}
+				os.RemoveAll(root)
+			}
+			c.Sub("relocation_cases", 1)
+		}
+	}
+}
+
+func c08FirstDiff(a, b map[string]string) string {
+	var keys []string
+	for k := range a {
+		keys = append(keys, k)
+	}
+	for k := range b {
+		if _, ok := a[k]; !ok {
+			keys = append(keys, k)
+		}
+	}
+	sort.Strings(keys)
+	for _, k := range keys {
+		x, y := a[k], b[k]
+		if x == y {
+			continue
+		}
+		i := 0
+		for i < len(x) && i < len(y) && x[i] == y[i] {
+			i++
+		}
+		lo := i - 60
+		if lo < 0 {
+			lo = 0
+		}
+		return fmt.Sprintf("%s at byte %d: %q vs %q", k, i, trunc(x[lo:], 160), trunc(y[lo:], 160))
+	}
+	return "(only hashes or diagnostics differ)"
+}
+
+// asciiJSON escapes a path the way esbuild writes strings into an ASCII-only JSON file
+func asciiJSON(p string) string {
+	var b strings.Builder
+	for _, r := range p {
+		switch {
+		case r == '\\' || r == '"':
+			b.WriteByte('\\')
+			b.WriteRune(r)
+		case r < 0x7F && r >= 0x20:
+			b.WriteRune(r)
+		case r > 0xFFFF:
+			r -= 0x10000
+			fmt.Fprintf(&b, "\\u%04X\\u%04X", 0xD800+(r>>10), 0xDC00+(r&0x3FF))
+		default:
+			fmt.Fprintf(&b, "\\u%04X", r)
+		}
+	}
+	return b.String()
 }
 
 func init() { register("C08", "model_checking", runC08) }
